@@ -229,3 +229,4 @@ Theorem ctor_total_old_refuted : mk_packet_old bad_array_line [] [] = Raise Asse
 Proof. vm_compute. reflexivity. Qed.
 Theorem ctor_now_rejects_it : mk_packet bad_array_line [] [] = Raise PacketInvalid.
 Proof. vm_compute. reflexivity. Qed.
+
